@@ -15,6 +15,8 @@ import (
 	"golang.org/x/tools/go/ssa"
 )
 
+var debugMods func(P *Program, S *Specs, E *Effects, re string)
+
 type FnResult struct {
 	Fn          string        `json:"fn"`
 	Contract    bool          `json:"contract"`
@@ -188,6 +190,9 @@ func main() {
 				f.WriteTo(os.Stdout)
 			}
 		}
+	case "mods":
+		E := NewEffects(P, S)
+		debugMods(P, S, E, *match)
 	case "list":
 		for _, f := range P.AllFuncs {
 			c := " "
@@ -247,3 +252,14 @@ func main() {
 	_ = strings.Join
 }
 
+
+func init() {
+	debugMods = func(P *Program, S *Specs, E *Effects, re string) {
+		r := regexp.MustCompile(re)
+		for _, f := range P.AllFuncs {
+			if r.MatchString(fnName(f)) {
+				fmt.Println(fnName(f), sortedKeys(E.Mods[f]))
+			}
+		}
+	}
+}
